@@ -444,6 +444,26 @@ func genDkgLib(rng *hx.Rng, tier string, w *hx.Writer, prop string) error {
 				return d, desc, true
 			}}
 		}},
+		{"crafted-commitments", func(s *dkgSess, b int) dkgHooks {
+			// consistent deals of a polynomial whose constant term is sum_{k>=1} c_k x^k at the victim's
+			// abscissa (the victim's public-share evaluation ends by adding a point to itself); in half of
+			// the runs the victim is handed the share 0 instead of the true one
+			hs := s.honest()
+			victim := hs[s.rng.Intn(len(hs))]
+			s.coeffs[b] = craftFor(randCoeffs(s.rng, s.t, BnQ), victim, BnQ)
+			zero := s.rng.Bool()
+			return dkgHooks{deal: func(i, j int) (*dkg.Deal, *edealDesc, bool) {
+				if j != b {
+					return nil, nil, true
+				}
+				p := s.dealing(b).honestPlain(i)
+				if i == victim && zero {
+					p.share = big.NewInt(0)
+				}
+				d, desc := s.byzDeal(b, i, p)
+				return d, desc, true
+			}}
+		}},
 		{"equivocation-honest-sids", func(s *dkgSess, b int) dkgHooks { return equivocate(s, b, false) }},
 		{"equivocation-crossed-sids", func(s *dkgSess, b int) dkgHooks { return equivocate(s, b, true) }},
 		{"wrong-threshold", func(s *dkgSess, b int) dkgHooks {
@@ -516,6 +536,25 @@ func genDkgLib(rng *hx.Rng, tier string, w *hx.Writer, prop string) error {
 				outs := s.runFlow(sc.mk(s, b))
 				s.put(w, prop, outs, sc.name)
 			}
+		}
+		// two colluding dealers deal (correctly) from one and the same polynomial
+		for n := 5; n <= 6; n++ {
+			b1 := rng.Intn(n)
+			b2 := (b1 + 1 + rng.Intn(n-1)) % n
+			s, err := newDkgSess(kr, rng, n, []int{b1, b2}, next())
+			if err != nil {
+				return err
+			}
+			s.coeffs[b2] = append([]*big.Int{}, s.coeffs[b1]...)
+			s.tags["two-dealers-same-polynomial"] = true
+			outs := s.runFlow(dkgHooks{deal: func(i, j int) (*dkg.Deal, *edealDesc, bool) {
+				if j != b1 && j != b2 {
+					return nil, nil, true
+				}
+				d, desc := s.byzDeal(j, i, s.dealing(j).honestPlain(i))
+				return d, desc, true
+			}})
+			s.put(w, prop, outs, "two-dealers-same-polynomial")
 		}
 	}
 	return nil
